@@ -6,6 +6,7 @@ import (
 	"go/parser"
 	"go/token"
 	"go/types"
+	"sort"
 	"strconv"
 	"strings"
 
@@ -19,17 +20,17 @@ type SV struct {
 }
 
 type SpecCtx struct {
-	e      *Engine
-	st     *State
-	fr     *Frame
-	vars   map[string]SV
-	entry  map[string]SV // parameter values at function entry
-	old    map[string]string
-	inOld  bool
-	inLoop bool // identifiers resolve to cells first
-	self   string
+	e        *Engine
+	st       *State
+	fr       *Frame
+	vars     map[string]SV
+	entry    map[string]SV // parameter values at function entry
+	old      map[string]string
+	inOld    bool
+	inLoop   bool // identifiers resolve to cells first
+	self     string
 	goalHyps *[]T
-	uns    bool
+	uns      bool
 }
 
 // rewriteImplies turns `A ==> B` into implies(A,B), respecting brackets; `<==>` into iff(A,B).
@@ -833,6 +834,17 @@ func (c *SpecCtx) call(n *ast.CallExpr) SV {
 			return SV{V: v}
 		}
 		return SV{V: c.e.strConst("<none>")}
+	case "receivedfrom":
+		// receivedfrom(ch): this execution performed a receive from ch (since the last loop cut)
+		ch := c.coerceTo(c.eval(n.Args[0]), SChan)
+		var ds []T
+		for k := range c.st.Ghost {
+			if strings.HasPrefix(k, "lastrecv:") {
+				ds = append(ds, Eq(ch, T{strings.TrimPrefix(k, "lastrecv:"), SChan}))
+			}
+		}
+		sort.Slice(ds, func(i, j int) bool { return ds[i].S < ds[j].S })
+		return SV{V: Or(ds...)}
 	case "sent", "recvd":
 		ch := c.coerceTo(c.eval(n.Args[0]), SChan)
 		return SV{V: e.regionRead(c.st, "chan."+fn.Name, []Sort{SChan}, e.cntSort(), ch), T: types.Typ[types.Uint64]}
@@ -1210,7 +1222,7 @@ var reflectUF = map[string]ufSig{
 	"rv_valid": {[]Sort{"X_reflect.Value"}, SBool}, "rv_type": {[]Sort{"X_reflect.Value"}, SAny},
 	"rv_isnil": {[]Sort{"X_reflect.Value"}, SBool}, "rv_canset": {[]Sort{"X_reflect.Value"}, SBool},
 	"rv_iface": {[]Sort{"X_reflect.Value"}, SAny}, "rv_of": {[]Sort{SAny}, "X_reflect.Value"},
-	"rv_elem": {[]Sort{"X_reflect.Value"}, "X_reflect.Value"},
+	"rv_elem":    {[]Sort{"X_reflect.Value"}, "X_reflect.Value"},
 	"rv_pointer": {[]Sort{"X_reflect.Value"}, SInt},
 }
 
